@@ -66,7 +66,11 @@ class VTimerHandle(asyncio.TimerHandle):
 
 
 class VLoop(asyncio.SelectorEventLoop):
-    def __init__(self, rev_ties=False):
+    def __init__(self, rev_ties=False, early_at=()):
+        # ticks whose synthetic I/O is delivered a quarter tick EARLY: the loop then runs the timers due at that tick in
+        # the same iteration while time() is still below their deadline (asyncio runs a timer up to one clock resolution
+        # early) - behaviour must not depend on it
+        self.early_at = set(early_at)
         self.vnow = 0.0
         self.pending_io = []  # heap of (time, seq, callback)
         self._io_seq = 0
@@ -103,9 +107,10 @@ class VLoop(asyncio.SelectorEventLoop):
         out = []
         if self.pending_io and (timeout is None or self.pending_io[0][0] <= self.vnow + timeout):
             t = self.pending_io[0][0]
-            if t > self.vnow:
-                self.vnow = t
-            while self.pending_io and self.pending_io[0][0] <= self.vnow:
+            early = int(round(t / TICK)) in self.early_at
+            if t - (TICK / 4 if early else 0) > self.vnow:
+                self.vnow = t - (TICK / 4 if early else 0)
+            while self.pending_io and self.pending_io[0][0] <= t:
                 _, _, cb = heapq.heappop(self.pending_io)
                 h = asyncio.Handle(cb, (), self)
                 out.append((selectors.SelectorKey(None, -1, selectors.EVENT_READ, (h, None)), selectors.EVENT_READ))
